@@ -827,6 +827,71 @@ theorem rendered_types_denote_same (o : Opts) (ih : IH) (t : Ty GoType Sig)
   rw [hcur, ← h2] at this
   exact ⟨s, h1, this⟩
 
+/-! #### packages the file handed to `LoadPackages` does not import
+
+`calcImports` builds the table from the import specs of ONE file.  A method promoted from an
+embedded type of another package, or declared in another file of the target package, may mention
+a package that file never imports (`context`, a third sibling).  `addNamed` then takes its `else`
+branch: it creates an entry named after the package's DECLARED name, stores it in the table and
+marks it in use.  `needed_imports_active` above is stated for every handler state, so it covers
+that branch; the next theorems spell the branch out. -/
+
+/-- **the `else` branch of `addNamed`.** A reference to package `q` (declared name `nm`) from a
+handler whose table has no entry for `q`: the qualifier printed is `nm`, and the table afterwards is
+the old one plus ONE entry for `q`, aliased `nm`, in use - stored, so that `GetActive` reports it. -/
+theorem addImport_unknown_package (ih : IH) (q nm : Name) (hne : q ≠ ih.cur)
+    (hun : ih.find? q = none) (hnm : nm ≠ []) :
+    (addImport ih q nm).2 = some nm ∧
+    (addImport ih q nm).1.imports = ih.imports ++ [⟨nm, q, hasSuffix q nm, true⟩] ∧
+    (⟨nm, q, hasSuffix q nm, true⟩ : ImportDesc) ∈ (addImport ih q nm).1.active := by
+  have hd : decide (nm = []) = false := by simp [hnm]
+  unfold addImport
+  simp only [hne, if_false, hun, hd]
+  refine ⟨?_, ?_, ?_⟩
+  · split <;> first | rfl | (rename_i h; simp at h)
+  · split <;> first | rfl | (rename_i h; simp at h)
+  · split
+    · rename_i h; simp at h
+    · exact List.mem_filter.2 ⟨List.mem_append_right _ List.mem_cons_self, rfl⟩
+
+/-- **needed_imports_active, for a package ABSENT from the file's import table.** For every type
+term and every handler: a mentioned package for which the table has no entry before is active
+afterwards through an entry that was not there before. -/
+theorem needed_imports_active_unimported (ih : IH) (t : GoType) (p : Name) (hp : p ∈ pathsOf t)
+    (hne : p ≠ ih.cur) (hun : ih.find? p = none) :
+    ∃ i ∈ (extract ensureParamNames ih t).1.active, i.path = p ∧ i ∉ ih.imports := by
+  obtain ⟨i, hi, h1⟩ := needed_imports_active ih t p hp hne
+  refine ⟨i, hi, h1, ?_⟩
+  intro hmem
+  have := List.find?_eq_none.1 hun i hmem
+  simp [h1] at this
+
+/-- **every import it needs is among the active imports, at the level of `FindInterface`** - for
+any embedding tree, any signatures, any options and ANY handler state, in particular one built from
+a file that imports none of the packages involved: every method of the result stems from a
+signature `s` declared in the tree under that method's name, and every package `s` mentions (other
+than the target package) is among the active imports of the handler afterwards. -/
+theorem findInterface_needed_imports_active (o : Opts) (ih : IH) (t : Ty GoType Sig) :
+    ∀ y ∈ (findInterface false o ih t).2.methods, ∃ s : Sig, (y.1, s) ∈ allMeths t ∧
+      ∀ p ∈ pathsOfPs s.params ++ pathsOfPs s.results, p ≠ ih.cur →
+        ∃ i ∈ (findInterface false o ih t).1.active, i.path = p := by
+  have hle := findInterface_grows o ih t
+  revert hle
+  unfold findInterface
+  simp only [Bool.not_false, Bool.false_eq_true, if_false]
+  intro hle y hy
+  obtain ⟨s, ih0, h1, _, h3⟩ := (nti_fromSig ensureParamNames lenOK_ensureParamNames
+    (fun i o => (ensureParamNames_length i o).2) true o ih t).2 y hy
+  have hok := methodFromSignature_ok ensureParamNames lenOK_ensureParamNames
+    (fun i o => (ensureParamNames_length i o).2) ih0 s
+  have hcur : ih0.cur = ih.cur := by
+    rw [← hok.1.1, ← h3.1, hle.1]
+  refine ⟨s, h1, ?_⟩
+  intro p hp hne
+  obtain ⟨a, ha⟩ := hok.2.1 p hp (by rw [hcur]; exact hne)
+  obtain ⟨i, hi, e1, _, e3⟩ := h3.2 p a ha
+  exact ⟨i, List.mem_filter.2 ⟨hi, e3⟩, e1⟩
+
 /-- the pinned commit's naming does not affect type references: the same holds with it -/
 theorem typeRef_denotes_same_legacy_naming (ih : IH) (t : GoType)
     (hd : DistinctAliases (extract ensureParamNamesLegacy ih t).1) :
@@ -874,6 +939,42 @@ example :
                    (['x', 's'], .slice (.named pRen ['r', 'e', 'n'] ['B', 'o', 'x'] [.named pCur ['t', 'g', 't'] tT []]))],
                   true, [([], .basic ['e', 'r', 'r', 'o', 'r'])]⟩)]
         [.mk (.named pSib sib ['E'] []) [(['G', 'e', 't'], ⟨[], false, [([], .named pDeep ['d', 'e', 'e', 'p'] tT [])]⟩)] []])).1 := by
+  unfold DistinctAliases; decide
+
+/-- a handler built from a file that imports NOTHING (`calcImports` of an empty import block): the
+struct embeds `sib.E`, whose method `Lookup(ctx context.Context, k deep.T) (sib.T, error)` mentions
+three packages the file never imports; afterwards all of them - and `sib` itself, for the embedded
+field's own reference - are active under their declared names, and the aliases are distinct -/
+example :
+    let ih0 := calcImports pCur [(pSib, sib)] []
+    let r := findInterface false ⟨false, true⟩ ih0
+      (.mk (.named pCur ['t', 'g', 't'] ['S'] []) []
+        [.mk (.named pSib sib ['E'] [])
+          [(['L', 'o', 'o', 'k', 'u', 'p'],
+            ⟨[(['c', 't', 'x'], .named "context".toList "context".toList "Context".toList []),
+              (['k'], .named pDeep ['d', 'e', 'e', 'p'] tT [])], false,
+             [([], .named pSib sib tT []), ([], .basic ['e', 'r', 'r', 'o', 'r'])]⟩)] []])
+    ih0.imports = [] ∧
+    r.1.active.map (fun i => (String.ofList i.alias, String.ofList i.importString)) =
+      [("sib", "\"m/sib\""), ("context", "\"context\""), ("deep", "\"m/x/deep\"")] ∧
+    DistinctAliases r.1 := by
+  refine ⟨by decide, by decide, ?_⟩
+  unfold DistinctAliases; decide
+
+/-- what `addNamed` does NOT do for a package the file does not import: look whether the declared
+name is already bound.  The file has `import deep "m/ren"`; a promoted method mentions `m/x/deep`
+(`package deep`).  Both active entries are called `deep`: the hypothesis `DistinctAliases` of
+`typeRef_denotes_same` fails and the qualifier resolves to nothing (the printed import block binds
+`deep` twice).  Such programs are outside C19's quantifier (the harness keeps them in the
+out-of-domain stream, class `unimported-clash`). -/
+theorem unimported_name_already_bound_unresolved :
+    let ih0 := calcImports pCur [(pRen, ['r', 'e', 'n'])] [(pRen, some ['d', 'e', 'e', 'p'])]
+    let r := extractL ensureParamNames ih0
+      [.named pRen ['r', 'e', 'n'] tT [], .named pDeep ['d', 'e', 'e', 'p'] tT []]
+    r.1.active.map (fun i => (i.alias, i.path)) =
+      [(['d', 'e', 'e', 'p'], pRen), (['d', 'e', 'e', 'p'], pDeep)] ∧
+    ¬ DistinctAliases r.1 ∧ resolveAlias r.1.active ['d', 'e', 'e', 'p'] = none := by
+  refine ⟨by decide, ?_, by decide⟩
   unfold DistinctAliases; decide
 
 /-! ### the printed import block binds the qualifiers the references use
